@@ -479,14 +479,17 @@ BATCH_MOD = {"ft": "fouriertransform", "ift": "fouriertransform", "ft2": "fourie
 
 @st.composite
 def batch_cases(draw):
-    return {"fn": draw(st.sampled_from(sorted(BATCH_MOD))), "n": draw(st.integers(1, 4)), "size": 2 * draw(st.integers(1, 5)), "seed": draw(st.integers(0, 2**31)),
+    return {"fn": draw(st.sampled_from(sorted(BATCH_MOD))), "n": draw(st.integers(1, 4)), "size": 2 * draw(st.integers(1, 5)), "size2": 2 * draw(st.integers(1, 5)), "seed": draw(st.integers(0, 2**31)),
+            "lead2": draw(st.booleans()),
             "dtype": draw(st.sampled_from(["float64", "float64", "float32"]))}
 
 
 def batch_body(ctx, case):
     mod = importlib.import_module("aotools." + BATCH_MOD[case["fn"]])
-    x = gen.np_rng(case["seed"]).normal(size=(case["n"], case["size"], case["size"])).astype(case["dtype"])
-    ctx.case(case, nontrivial=case["n"] >= 2, classes=["fn_" + case["fn"], case["dtype"]])
+    nonsq = case["fn"] in ("centre_of_gravity", "brightest_pixel", "ft", "ift", "rft", "binImgs", "calc_slope_temporalps")      # no square-image requirement
+    s2 = case.get("size2", case["size"]) if nonsq else case["size"]
+    x = gen.np_rng(case["seed"]).normal(size=(case["n"], case["size"], s2)).astype(case["dtype"])
+    ctx.case(case, nontrivial=case["n"] >= 2, classes=["fn_" + case["fn"], case["dtype"], "square" if s2 == case["size"] else "non_square"])
     x0 = x.copy()
     got, per = quiet(BATCH[case["fn"]], mod, x)
     ctx.equal(x, x0, "%s modified its (stack) argument" % case["fn"])
